@@ -457,7 +457,8 @@ def ext_tables(ctx, values, tys_json, bounds=()):
     seen = set()
     for s in scalars + extra:
         key = (type(s).__name__, repr(s))
-        if key not in seen and isinstance(s, (type(None), bool, int, float, complex, str, bytes, bytearray, Decimal, Fraction, pathlib.PurePath)):
+        if key not in seen and isinstance(s, (type(None), bool, int, float, complex, str, bytes, bytearray, Decimal, Fraction, pathlib.PurePath,
+                                               datetime.date, datetime.time)):
             seen.add(key)
             cands.append(s)
     fns = []
@@ -472,6 +473,10 @@ def ext_tables(ctx, values, tys_json, bounds=()):
     for d in ('datetime', 'date', 'time'):
         if f'"{d}"' in text:
             fns.append(('fromiso:' + d, S.SCALARS[d].fromisoformat, (str,)))
+    # DatetimeConverter's conversions between date/time objects (`val.date()`, `val.time()`, `datetime.combine(val, time())`)
+    fns.append(('dt:date', lambda v: v.date(), (datetime.datetime,)))
+    fns.append(('dt:time', lambda v: v.time(), (datetime.datetime,)))
+    fns.append(('dt:combine', lambda v: datetime.datetime.combine(v, datetime.time()), (datetime.date,)))
     if 'pattern' in text:
         fns.append(('re.compile', re.compile, (str, bytes)))
     for name, (cls, base) in ctx.subs.items():
@@ -858,6 +863,16 @@ def run(scen, ctx):
             v = _types.SimpleNamespace(shape=shapes[0])
             out['cond_broadcastable'] = bool(A.broadcastable(shapes[1]).f(v))
             out['cond_shape'] = bool(A.shape(list(shapes[1])).f(v))
+            # the documented argument is a Sequence[int] (a list as well as a tuple), and `.shape` of an array-like may be a list
+            variants = []
+            for arg in (tuple(shapes[1]), list(shapes[1])):
+                for shp in (tuple(shapes[0]), list(shapes[0])):
+                    try:
+                        variants.append([bool(A.broadcastable(arg).f(_types.SimpleNamespace(shape=shp))), bool(A.shape(arg).f(_types.SimpleNamespace(shape=shp)))])
+                    except BaseException as e:  # noqa
+                        variants.append('raises:' + map_exc(e))
+            if any(x != [out['cond_broadcastable'], out['cond_shape']] for x in variants):
+                out['cond_variants'] = variants
         notes = []
         if with_np != truth:
             notes.append(f'broadcast_shapes{tuple(shapes)} = {with_np}, numpy says {truth}')
@@ -867,6 +882,8 @@ def run(scen, ctx):
             notes.append(f'is_broadcastable{tuple(shapes)} = {out["is"]} (without numpy {fb_ok}), numpy says {truth is not None}')
         if len(shapes) == 2 and (out['cond_broadcastable'] != (truth is not None) or out['cond_shape'] != (shapes[0] == shapes[1])):
             notes.append(f'conditions on a value of shape {shapes[0]} against {shapes[1]}: broadcastable {out["cond_broadcastable"]}, shape {out["cond_shape"]}')
+        if 'cond_variants' in out:
+            notes.append(f'the shape conditions depend on the spelling (tuple / list) of their argument or of the value\'s .shape: {out["cond_variants"]}')
         scen['_oracle'] = {'c13b': notes[0] if notes else None}
         return out
     if op == 'reach':
@@ -977,9 +994,26 @@ def run_cmp(scen, ctx):
     a = _obj(ctx, scen['a'], scen.get('akey'))
     if scen['op'] == 'repr':
         try:
-            return {'ok': repr(a)}
+            out = {'ok': repr(a)}
         except BaseException as e:  # noqa
             return {'raises': map_exc(e)}
+        if scen.get('partial'):
+            # an instance that lacks the field: showing it fails; after the field is assigned it is shown like `a`
+            missing = scen['partial']
+            b = type(a).from_dict_unchecked({f.name: getattr(a, f.name) for f in type(a).__pane_info__.fields if f.name != missing})
+            try:
+                repr(b)
+                first = 'shown'
+            except AttributeError:
+                first = 'AttributeError'
+            except BaseException as e:  # noqa
+                first = map_exc(e)
+            object.__setattr__(b, missing, getattr(a, missing))
+            try:
+                out['after_fail'] = [first, repr(b)]
+            except BaseException as e:  # noqa
+                out['after_fail'] = [first, 'raises:' + map_exc(e)]
+        return out
     b = _obj(ctx, scen['b'], scen.get('bkey'))
     out = {}
     import operator
@@ -1472,13 +1506,13 @@ def oracle_c08(ctx, scen, T, conv, val, out):
 
 def c08_order(node, text, pos=0, sum_depth=0):
     """'in nesting order': along every root-to-leaf path the path components and then the leaf's expectation occur in the
-    text in that order; and the offending value of a leaf is shown (unions nested more than two deep: known finding D13)"""
+    text in that order; and the offending value of a leaf is shown (at any nesting depth of unions since the D13 fix)"""
     from pane.errors import SumErrorNode, ProductErrorNode, WrongTypeError, ConditionFailedError, WrongLenError
     if isinstance(node, (WrongTypeError, ConditionFailedError, WrongLenError)):
         i = text.find(node.expected, pos)
         if i < 0:
             return f'leaf expectation {node.expected!r} does not come after its path in the message'
-        if sum_depth < 2:
+        if True:
             try:
                 shown = f'`{node.actual}`'
             except BaseException:  # noqa
@@ -1578,10 +1612,22 @@ ORACLES = {'c03': oracle_c03, 'c04': oracle_c04, 'c07': oracle_c07, 'c08': oracl
 def _fn_handler(ty, args, *, handlers):
     if ty is int:
         return _FN_CONV
+    if isinstance(ty, type) and ty.__dict__.get('_hist_plain'):
+        # a plain user class the library has no converter for: convertible only while this handler is passed
+        return _PLAIN_CONV
     return NotImplemented
 
 
+def _mk_plain():
+    return type('HistPlain', (), {'_hist_plain': True})
+
+
+def _mk_pane_plainfield():
+    return type('HistP', (pane.PaneBase,), {'__annotations__': {'a': int, 'p': _mk_plain()}})
+
+
 _FN_CONV = TagConv('tagint:2')
+_PLAIN_CONV = TagConv('tagint:5')
 _DICT_CONV = TagConv('tagint:3')
 
 
@@ -1608,12 +1654,15 @@ TYPE_POOL = [lambda: list[int], lambda: dict[str, float], lambda: list[str], lam
              lambda: {'a': int}, lambda: set[int], lambda: dict[str, list[int]], lambda: int | None, lambda: list[float],
              lambda: dict[str, int], lambda: tuple[int, ...], lambda: _mk_pane_safe(False), lambda: _mk_pane_safe(True), lambda: int,
              # unions whose members overlap: which member answers must not depend on what the converter saw before
-             lambda: datetime.date | str, lambda: _pos_or_float(), lambda: list[datetime.date | str]]
+             lambda: datetime.date | str, lambda: _pos_or_float(), lambda: list[datetime.date | str],
+             # types that can be built ONLY with the function-form handler (#1): a failed build without it must leave no trace
+             lambda: _mk_plain(), lambda: _mk_pane_plainfield()]
 # several sample values per type; a call converts ONE of them (chosen by the history)
 SAMPLES = [[[1, 2], [3]], [{'k': 1.5}, {}], [['s'], []], [[3, 's'], [4, 't']], [[4, 't'], [5, 'u']], [{'a': 5}, {}, {'a': 6}], [[6], [7, 7]],
            [{'k': [7]}, {}], [8, None], [[1.5], [2]], [{'k': 9}, {'j': 1}], [[10, 11], []],
            [{'a': 1, 'b': 2.5, 'c': 'x'}, {'a': 2, 'b': 1, 'c': 'y'}], [{'a': 1, 'b': 2.5, 'c': 'x'}, {'a': 1, 'b': 2.5, 'c': 'x'}], [12, 13],
-           ['to be announced', '2024-02-29', 'tbd'], [-3, 5, 2.5], [['to be announced', '2024-02-29'], ['2024-02-29'], ['x']]]
+           ['to be announced', '2024-02-29', 'tbd'], [-3, 5, 2.5], [['to be announced', '2024-02-29'], ['2024-02-29'], ['x']],
+           [3, 4], [{'a': 1, 'p': 2}, {'a': 3, 'p': 4}]]
 _REG = {}
 
 
@@ -1665,6 +1714,14 @@ def run_history(scen):
                 fresh[key] = ('build-error', type(e).__name__)
         return fresh[key]
 
+    # the references are built BEFORE the history runs (handler-carrying ones first): a reference must not be what the
+    # history left behind
+    _d_of = {}
+    for o in scen['hist']:
+        if o[0] == 'alloc':
+            _d_of[o[1]] = o[2]
+        elif o[0] == 'call' and o[1] in _d_of and o[2] != 3:
+            fresh_sig(_d_of[o[1]], o[2], o[3] if len(o) > 3 else 0)
     slots, desc = {}, {}
     ops, obs = [], []
     uniq = [1000]
@@ -1803,6 +1860,21 @@ def run_io(scen, ctx, T, conv, val):
         return f
 
     pio.open = rec_open   # module-level name shadows the builtin inside pane.io only
+    if scen.get('prelude_fail'):
+        # an EARLIER write that fails half-way (a value the codec cannot represent), on the same thread, through the
+        # string-returning dataclass methods and through a stream: the scenario's own write must not see anything of it
+        class _Unrep(PaneBase):
+            name: str = 'carrier'
+            gain: t.Any = None
+        for w in ('write_json', 'write_yaml'):
+            try:
+                getattr(_Unrep(gain=3 + 4j if w == 'write_json' else object()), w)()
+            except BaseException:  # noqa
+                pass
+        try:
+            write(_Unrep(gain=3 + 4j if fmt == 'json' else object()), _io.StringIO(), ty=_Unrep)
+        except BaseException:  # noqa
+            pass
     try:
         with warnings.catch_warnings(record=True) as wlist:
             warnings.simplefilter('always', ResourceWarning)
